@@ -7,7 +7,7 @@ patch="$(readlink -f "$1")"; shift
 d=$(mktemp -d /dev/shm/tlvmut_XXXXXX)
 rsync -a --exclude .git --exclude '__pycache__' --exclude 'doc' --exclude 'examples' /repo/ "$d/"
 ( cd "$d" && patch -p1 --no-backup-if-mismatch -s < "$patch" ) || { echo "PATCH FAILED"; rm -rf "$d"; exit 99; }
-VERIF_REPO="$d" "$@"
+VERIF_REPO="$d" TLV_EVIDENCE_DIR="$d/_evidence" "$@"
 rc=$?
 rm -rf "$d"
 exit $rc
